@@ -250,4 +250,70 @@ theorem C16_stop_order {σ : Type} (r : Run σ) (keep : Bool) :
 theorem C16_reload_keeps_store {σ : Type} (r : Run σ) : r.reload.store = r.store ∧ r.reload.storeUp = r.storeUp := by
   simp [Run.reload, Run.stop, Run.start]
 
+/-! ## the signal loop -/
+
+def countUsr1 : List SigEv → Nat
+  | [] => 0
+  | .usr1 :: r => countUsr1 r + 1
+  | _ :: r => countUsr1 r
+
+/-- with the re-armed context, the loop never reloads more often than reload signals were delivered … -/
+theorem C16_reloads_le_signals (evs : List SigEv) (s : SigLoop) :
+    (SigLoop.run true s evs).reloads + (if (SigLoop.run true s evs).reloadDone then 1 else 0) ≤
+      s.reloads + (if s.reloadDone then 1 else 0) + countUsr1 evs := by
+  induction evs generalizing s with
+  | nil => simp [SigLoop.run, countUsr1]; exact Nat.le_refl _
+  | cons e rest ih =>
+    have h := ih (SigLoop.step true s e)
+    simp only [SigLoop.run, List.foldl_cons] at h ⊢
+    refine Nat.le_trans h ?_
+    cases e <;> simp only [SigLoop.step, countUsr1]
+    · by_cases hx : s.exited <;> by_cases hd : s.reloadDone <;> simp [hx, hd] <;> omega
+    · by_cases hx : s.exited <;> simp [hx]
+    · by_cases hx : s.exited <;> by_cases hd : s.reloadDone <;> by_cases ht : s.termDone <;> simp [hx, hd, ht] <;> omega
+
+/-- … and a signal that is followed by an iteration of the loop causes exactly one reload; further iterations none -/
+theorem C16_one_reload_per_signal (k : Nat) :
+    (SigLoop.run true {} (.usr1 :: List.replicate (k + 1) .select)).reloads = 1 := by
+  induction k with
+  | zero => rfl
+  | succ k ih =>
+    have : List.replicate (k + 1 + 1) SigEv.select = List.replicate (k + 1) .select ++ [.select] := by
+      simp [List.replicate_succ']
+    simp only [SigLoop.run] at ih ⊢
+    rw [this, ← List.cons_append, List.foldl_append]
+    generalize hs : List.foldl (SigLoop.step true) {} (SigEv.usr1 :: List.replicate (k + 1) .select) = st at ih ⊢
+    have hnd : st.reloadDone = false ∧ st.exited = false ∧ st.termDone = false := by
+      rw [← hs]
+      clear hs ih this
+      induction k with
+      | zero => decide
+      | succ k ihk =>
+        have : List.replicate (k + 1 + 1) SigEv.select = List.replicate (k + 1) .select ++ [.select] := by
+          simp [List.replicate_succ']
+        rw [this, ← List.cons_append, List.foldl_append]
+        generalize List.foldl (SigLoop.step true) {} (SigEv.usr1 :: List.replicate (k + 1) .select) = t at ihk ⊢
+        obtain ⟨a, b, c⟩ := ihk
+        simp [SigLoop.step, a, b, c]
+    simp [SigLoop.step, hnd.1, hnd.2.1, hnd.2.2, ih]
+
+/-- D15, the loop as it was (no re-arming): one signal, and every later iteration reloads again -/
+theorem C16_old_loop_reloads_forever (k : Nat) :
+    (SigLoop.run false {} (.usr1 :: List.replicate k .select)).reloads = k ∧
+    (SigLoop.run false {} (.usr1 :: List.replicate k .select)).reloadDone = true ∧
+    (SigLoop.run false {} (.usr1 :: List.replicate k .select)).exited = false := by
+  induction k with
+  | zero => exact ⟨rfl, rfl, rfl⟩
+  | succ k ih =>
+    have : List.replicate (k + 1) SigEv.select = List.replicate k .select ++ [.select] := by simp [List.replicate_succ']
+    simp only [SigLoop.run] at ih ⊢
+    rw [this, ← List.cons_append, List.foldl_append]
+    generalize List.foldl (SigLoop.step false) {} (SigEv.usr1 :: List.replicate k .select) = st at ih ⊢
+    obtain ⟨h1, h2, h3⟩ := ih
+    simp [SigLoop.step, h1, h2, h3]
+
+/-- shutdown still works: once the reload has been handled, a termination signal ends the loop -/
+example : (SigLoop.run true {} [.usr1, .select, .term, .select]).exited = true ∧
+          (SigLoop.run true {} [.usr1, .select, .term, .select]).reloads = 1 := by decide
+
 end Lifecycle
